@@ -288,4 +288,36 @@ pub fn generate(g: &mut Gen, thorough: bool) {
             case(g, "default", def, "F", space, 2e-5, &pts, "pipelines", true);
         }
     }
+    // central meridians next to the antimeridian, the longitudes written in ]-180, 180] on either side of it
+    for (def, lon_0) in [("utm zone=1", -177.0), ("utm zone=60", 177.0), ("tmerc lon_0=180 k_0=0.9996 x_0=500000", 180.0), ("tmerc lon_0=-179.5", -179.5), ("utm zone=60 south ellps=intl", 177.0)] {
+        let pts: Vec<[f64; 4]> = [-4.0, -2.5, -0.5, 0.0, 1.0, 2.5, 4.0, 5.5]
+            .iter()
+            .map(|d| {
+                let mut lon: f64 = lon_0 + d;
+                if lon > 180.0 {
+                    lon -= 360.0;
+                }
+                if lon <= -180.0 {
+                    lon += 360.0;
+                }
+                [lon.to_radians(), g.rng.uniform(-1.3, 1.3), 0.0, 2000.0]
+            })
+            .collect();
+        case(g, "default", def, "F", "geo", 5e-6, &pts, "tmerc-across-the-antimeridian", true);
+    }
+    // pipelines that rearrange their data through the stack: run backwards they put everything back (balanced
+    // programs of push, pop, roll, unroll, swap, flip around value changing steps), also through a macro and with `inv`
+    for def in [
+        "stack push=1,2,3 | stack roll=3,1 | stack pop=3,2,1",
+        "stack push=1,2,3,4 | stack unroll=4,1 | stack pop=1,2,3,4",
+        "stack push=1,2,3 | addone | stack roll=3,2 | stack swap | stack pop=3,2,1",
+        "stack push=3,4 | helmert x=10 y=20 | stack flip=1,2 | stack pop=4,3",
+        "stack push=1,2,3,4 | stack roll=4,-1 | stack roll=3,2 | stack pop=4,3,2,1 | helmert z=5",
+        "push v_1 v_2 v_3 | addone | stack roll=3,1 | pop v_3 v_2 v_1",
+        "inv stack push=4,3,2 | inv stack roll=3,1 | inv stack pop=2,3,4",
+    ] {
+        let pts: Vec<[f64; 4]> = (0..4).map(|_| [g.rng.uniform(-9.0, 9.0), g.rng.uniform(10.0, 90.0), g.rng.uniform(100.0, 900.0), g.rng.uniform(1000.0, 9000.0)]).collect();
+        case(g, "default", def, "F", "exact", 0.0, &pts, "pipelines-through-the-stack", true);
+        case(g, "default", def, "I", "exact", 0.0, &pts, "pipelines-through-the-stack-inv-first", true);
+    }
 }
